@@ -13,8 +13,13 @@ by the language definition (spec.md), independently of the checker:
   arg-count            one argument too many / too few for the callee's function type (5.3, 5.13, 14.6)
   targ-count           k+1 / k-1 explicit type arguments for k type parameters; <int> for none (5.13, 6.7.4)
   unbound-var          a use of a local renamed to an identifier that occurs nowhere (6.2)
-  unbound-class/-member/-module   a name that occurs nowhere in the program (6.4, 6.6, 3.2)
-  private-member       `private` on a member / class that another module uses (3.4, 4.6); offending = the users
+  unbound-class/-member/-module   a name that occurs nowhere in the program (6.4, 6.6, 3.2); the class name in expression
+                       position, as any node (at any depth) of a let / lambda / parameter / return / field / variant
+                       annotation, and as any node of the explicit type arguments of a static or method call
+  private-member       `private` on a member / class that another module uses (3.4, 4.6); offending = the users: the
+                       modules that import the class or, for a class nobody imports (class-leaked), the modules where an
+                       instance that reached them through a public function / field / closure has a method called, a
+                       field read or its shape matched
   iface-missing        a method required by an implemented interface deleted / its return type changed (4.2, 4.4, 5.13)
   bound-violation      a bounded type parameter instantiated with Str, which implements nothing (5.6, 5.10); or the
                        `: Interface` clause of a class removed (it keeps its methods), offending = every module where
@@ -112,7 +117,7 @@ def mutate_and_observe(d, gen, repo, tier, avoid):
             continue
         feats.append({"id": 100000 + len(feats), "origin": "corpus:" + os.path.relpath(path, VERIF), "entry": "Main", "sources": srcs})
     if tier == "quick":
-        del feats[12:]
+        del feats[14:]
     for i, c in enumerate([feats[j::4] for j in range(4)]):
         if c:
             inp = os.path.join(d, f"in-feat-{i}.ndjson")
